@@ -104,7 +104,36 @@ def case_task(task):
         kind = rng.choice(["date", "date", "date", "time", "dt"])
         argv = [str(bindir / "dseq")]
         alt_txt = None
-        if kind == "date":
+        if kind == "date" and rng.random() < .06:
+            # bounds given as counts of seconds since 1970 (midnights), stepped by days or weeks
+            unit = rng.choice(["d", "w"])
+            n = rng.choice([1, 2, 3, -1, -2, -5])
+            o1 = rng.randrange(cal.ORD_MIN + 800, cal.ORD_MAX - 2000)
+            span = rng.choice([0, 1, 5, 20, 60]) * abs(n) * (7 if unit == "w" else 1) + rng.randrange(0, 7)
+            o2 = o1 + (span if n > 0 else -span)
+            exp = expected_dates(o1, o2, unit, n, None, False)
+            if exp is None:
+                continue
+            argv += ["-i", "%s", "-f", "%s", "--", addsweep.ktext("epoch", o1)[0], "%d%s" % (n, unit), addsweep.ktext("epoch", o2)[0]]
+            exp_txt = [addsweep.ktext("epoch", t) for t in exp]
+            cls = ("date", "epoch", unit, "+" if n > 0 else "-", "noskip", "fwd")
+        elif kind == "time" and rng.random() < .06:
+            # nanosecond steps between two times of day, across midnight too
+            stepns = rng.choice([250000000, 400000000, 500000000, 1500000000]) * rng.choice([1, 1, -1])
+            t1 = rng.choice([86399, 86398, 0, 43200, rng.randrange(86400)])
+            dsec = rng.choice([1, 2, 3, 5])
+            t2 = (t1 + (dsec if stepns > 0 else -dsec)) % 86400
+            from_last = False
+            e, k = [], 0
+            tot = dsec * 10 ** 9
+            while abs(k * stepns) <= tot:
+                v = (t1 * 10 ** 9 + k * stepns) % (86400 * 10 ** 9)
+                e.append(("%s.%09d" % (hms(v // 10 ** 9), v % 10 ** 9),))
+                k += 1
+            argv += [hms(t1), "%dns" % stepns, hms(t2), "-f", "%T.%N"]
+            exp_txt = e
+            cls = ("time", "ns", "+" if stepns > 0 else "-", "wrap" if (t2 < t1) != (stepns < 0) else "nowrap", "fwd")
+        elif kind == "date":
             K = rng.choice(["ymd", "ymd", "ymd", "ymd", "ymd", "ywd", "ywd", "ymcw", "ymcw", "yd", "yd", "bizda"])
             # (bounds written as business days step by business days, also when no increment is given)
             unit = rng.choice(["d", "d", "w", "mo", "y", "b"]) if K == "ymd" else "b" if K == "bizda" else rng.choice(["d", "d", "w"])
